@@ -22,3 +22,6 @@ open JetVerif.Props.C02L
 #print axioms parseSource_never_crashes
 #print axioms lexer_terminates
 #print axioms every_step_lowers_the_potential
+#print axioms parser_terminates
+#print axioms parseSource_terminates
+#print axioms parseSource_total
